@@ -295,6 +295,11 @@ def shard_replay(drv, shard, case):
     failures: the case only fails after the executions that precede it in its shard)."""
     import pickle
 
+    if isinstance(case, dict) and case.get("pyopt"):
+        st = run_opt_pass(drv.ID, "quick", [shard])
+        key = json.dumps(case, sort_keys=True, default=repr)
+        return [v for v in st.violations if json.dumps(v["case"], sort_keys=True, default=repr) == key]
+
     r, w = os.pipe()
     pid = os.fork()
     if pid == 0:
@@ -356,7 +361,6 @@ def run_opt_pass(prop_id, tier, shards):
         v["msg"] = "[python -O] " + v["msg"]
         v["label"] = "O-" + v["label"]
         v["fingerprint"] = "O-" + v["fingerprint"]
-        v.pop("shard", None)
     st.label_counts = {"O-" + k: n for k, n in st.label_counts.items()}
     st.fp_counts = {"O-" + k: n for k, n in st.fp_counts.items()}
     parts = {}
@@ -397,6 +401,8 @@ def load_driver(prop_id):
 
 def replay_case(prop_id, case, shard=None):
     if isinstance(case, dict) and case.get("pyopt"):
+        if shard is not None:
+            return shard_replay(load_driver(prop_id), shard, case)
         return replay_opt(prop_id, case)
     drv = load_driver(prop_id)
     if hasattr(drv, "setup"):
@@ -561,6 +567,7 @@ def run_check(prop_id, tier="quick", seed=0, jobs=None):
 
     # determinism gate: the first few violations are re-executed twice from the case alone
     confirmed = []
+    unreproducible = []
     reported.sort(key=lambda v: len(json.dumps(v["case"], default=repr)))
     picked, labels = [], set()
     for v in reported:  # shortest case of each label first
@@ -589,12 +596,18 @@ def run_check(prop_id, tier="quick", seed=0, jobs=None):
             print(f"NOTE property={prop_id}: supplementary finding did not reproduce and is not reported: {v['msg'][:200]}", file=sys.stderr)
             continue
         if not r1:
-            print(
-                f"HARNESS-NONREPRODUCIBLE property={prop_id} msg={v['msg'][:300]} case={json.dumps(v['case'], default=repr)[:300]}",
-                flush=True,
-            )
-            return 2
+            unreproducible.append(v)
+            continue
         confirmed.append(v)
+    if unreproducible and not confirmed:
+        v = unreproducible[0]
+        print(
+            f"HARNESS-NONREPRODUCIBLE property={prop_id} msg={v['msg'][:300]} case={json.dumps(v['case'], default=repr)[:300]}",
+            flush=True,
+        )
+        return 2
+    for v in unreproducible:
+        print(f"NOTE property={prop_id}: a violation did not reproduce from its case or shard and is not reported: {v['msg'][:200]}", file=sys.stderr)
 
     # exact counts: violations carrying an explicit fingerprint are counted per fingerprint even when the kept list is capped
     known_fps = {k.get("fingerprint") for k in known if k.get("property") == prop_id}
